@@ -238,7 +238,7 @@ impl C19 {
         let vocab = (l[0].as_usize()?.min(1024) / 64) * 64;
         let nspecial = l[1].as_usize()?.min(2048);
         let norm = l[2].as_i()?.clamp(0, 4);
-        let threads = l[3].as_i()?.clamp(0, 8);
+        let threads = l[3].as_i()?.clamp(0, 40);
         let maxlines = match l[4].as_l()? {
             [] => Val::none(),
             [x, ..] => Val::some(Val::u(x.as_usize()?)),
@@ -642,7 +642,8 @@ impl Prop for C19 {
             _ => rng.below(5),
         };
         let norm = if rng.chance(1, 3) { 0 } else { *rng.pick(&[1i64, 2, 3, 3, 4]) };
-        let threads = rng.below(4);
+        // 0..3 counting threads mostly; now and then many more than lines / cores
+        let threads = if rng.chance(1, 12) { *rng.pick(&[8usize, 17, 33]) } else { rng.below(4) };
         let maxlines = if rng.chance(1, 6) { Val::some(Val::u(rng.below(4))) } else { Val::none() };
         let ntok = rng.range(1, 5);
         // test strings: corpus words in a new spacing, plus foreign units and trailing whitespace
@@ -768,7 +769,7 @@ impl Prop for C19 {
 
     fn run(&mut self, input: &Val) -> Option<(Val, Vec<String>)> {
         let p = parse_params(input)?;
-        if p.vocab % 64 != 0 || p.vocab > 1024 || p.ntok < 1 || p.ntok > 6 || p.threads > 8 || !(0..=4).contains(&p.norm) {
+        if p.vocab % 64 != 0 || p.vocab > 1024 || p.ntok < 1 || p.ntok > 6 || p.threads > 40 || !(0..=4).contains(&p.norm) {
             return None;
         }
         let d = self.fresh_dir();
